@@ -15,7 +15,7 @@ PKG=$(grep -io 'package dir[a-z]*[: ]*[a-z/]*\|belongs in[^a-z]*[a-z/]*\|goes in
 if [ -z "$PKG" ] || [ ! -d "$WT/$PKG" ]; then PKG=$(head -1 "$SRC/demo_test.go" | awk '{print $2}'); [ "$PKG" = "websocket" ] || [ -d "$WT/$PKG" ] || PKG=websocket; fi
 # the package clause of the demo decides
 DECL=$(grep -m1 '^package ' "$SRC/demo_test.go" | awk '{print $2}')
-case "$DECL" in websocket|websocket_test) PKG=websocket;; models|models_test) PKG=models;; vikja) PKG=modules/vikja;; odal) PKG=modules/odal;; dagaz) PKG=modules/dagaz;; receipt) PKG=receipt;; featureflag) PKG=featureflag;; http) PKG=http;; smoketest) PKG=smoketest;; main) PKG=cmd;; esac
+case "$DECL" in websocket|websocket_test) PKG=websocket;; models|models_test) PKG=models;; vikja) PKG=modules/vikja;; odal) PKG=modules/odal;; dagaz) PKG=modules/dagaz;; receipt) PKG=receipt;; featureflag) PKG=featureflag;; http|http_test) PKG=http;; smoketest) PKG=smoketest;; main) PKG=cmd;; esac
 git apply "$SRC/patch.diff" || { echo "RESULT $ID patch-does-not-apply"; exit 1; }
 go build ./... || { echo "RESULT $ID build-fails"; exit 1; }
 SUITE=$(go test -vet=off -count=1 ./... 2>&1)
